@@ -30,6 +30,15 @@
 #include "CppUTest/PlatformSpecificFunctions.h"
 #include "CppUTest/SimpleMutex.h"
 
+#ifdef CPPUTEST_VERIF_HOOKS
+/* Verification instrumentation (compiled only under the guard): observation / scheduling points at
+ * the accesses to the detector's shared state. Expands to nothing in normal builds. */
+extern "C" { void (*cpputest_verif_point)(const char* tag) = NULLPTR; }
+#define CPPUTEST_VERIF_POINT(tag) do { if (cpputest_verif_point) cpputest_verif_point(tag); } while (0)
+#else
+#define CPPUTEST_VERIF_POINT(tag)
+#endif
+
 static const char* UNKNOWN = "<unknown>";
 
 static const char GuardBytes[] = {'B','A','S'};
@@ -48,6 +57,7 @@ void SimpleStringBuffer::clear()
 
 void SimpleStringBuffer::add(const char* format, ...)
 {
+    CPPUTEST_VERIF_POINT("buffer.add");
     const size_t positions_left = write_limit_ - positions_filled_;
     if (positions_left == 0) return;
 
@@ -302,6 +312,7 @@ void MemoryLeakDetectorList::clearAllAccounting(MemLeakPeriod period)
 void MemoryLeakDetectorList::addNewNode(MemoryLeakDetectorNode* node)
 {
     node->next_ = head_;
+    CPPUTEST_VERIF_POINT("list.add");
     head_ = node;
 }
 
@@ -310,6 +321,7 @@ MemoryLeakDetectorNode* MemoryLeakDetectorList::removeNode(char* memory)
     MemoryLeakDetectorNode* cur = head_;
     MemoryLeakDetectorNode* prev = NULLPTR;
     while (cur) {
+        CPPUTEST_VERIF_POINT("list.remove");
         if (cur->memory_ == memory) {
             if (prev) {
                 prev->next_ = cur->next_;
@@ -330,6 +342,7 @@ MemoryLeakDetectorNode* MemoryLeakDetectorList::retrieveNode(char* memory)
 {
   MemoryLeakDetectorNode* cur = head_;
   while (cur) {
+    CPPUTEST_VERIF_POINT("list.retrieve");
     if (cur->memory_ == memory)
       return cur;
     cur = cur->next_;
@@ -377,6 +390,7 @@ size_t MemoryLeakDetectorList::getTotalLeaks(MemLeakPeriod period)
 {
     size_t total_leaks = 0;
     for (MemoryLeakDetectorNode* node = head_; node; node = node->next_) {
+        CPPUTEST_VERIF_POINT("list.total");
         if (isInPeriod(node, period)) total_leaks++;
     }
     return total_leaks;
@@ -564,6 +578,7 @@ MemoryLeakDetectorNode* MemoryLeakDetector::getNodeFromMemoryPointer(char* memor
 
 void MemoryLeakDetector::storeLeakInformation(MemoryLeakDetectorNode * node, char *new_memory, size_t size, TestMemoryAllocator *allocator, const char *file, size_t line)
 {
+    CPPUTEST_VERIF_POINT("detector.store");
     node->init(new_memory, allocationSequenceNumber_++, size, allocator, current_period_, current_allocation_stage_, file, line);
     addMemoryCorruptionInformation(node->memory_ + node->size_);
     memoryTable_.addNewNode(node);
